@@ -96,7 +96,28 @@ impl Connector for LoadBalanceConnector {
                 n
             );
         }
+        // a request handed round a cycle of load balancers would never reach an upstream
+        let mut pending: Vec<&String> = self.connectors.iter().collect();
+        let mut seen: Vec<&String> = vec![];
+        while let Some(n) = pending.pop() {
+            ensure!(
+                n != &self.name,
+                "load balancer {} is (indirectly) a member of itself",
+                self.name
+            );
+            if seen.contains(&n) {
+                continue;
+            }
+            seen.push(n);
+            if let Some(c) = state.connectors.get(n) {
+                pending.extend(c.members());
+            }
+        }
         Ok(())
+    }
+
+    fn members(&self) -> &[String] {
+        &self.connectors
     }
 
     async fn connect(
